@@ -33,6 +33,7 @@ static long val_of(Cell const& c) { return c.v; }
 #include "common/viewreg.hpp"
 
 #include <fstream>
+#include <unistd.h>
 #include <initializer_list>
 
 static long val_of(int x) { return x; }
@@ -735,6 +736,8 @@ int main(int argc, char** argv) {
 	std::string mode = argv[3];
 	fprog = std::fopen(argv[4], "w"); fans = std::fopen(argv[5], "w");
 	if(!fprog || !fans) { std::perror("fopen"); return 2; }
+	// watchdog: a library change that makes a loop run away must end as a crash (reported, shrunk), not as a hang
+	alarm((argc >= 8 && std::string(argv[6]) == "--replay") ? 20 : static_cast<unsigned>(60 + nprog / 200));
 	g_store.assign(static_cast<std::size_t>(NCELL), VT(0)); g_lstore.assign(static_cast<std::size_t>(NCELL), 0);
 	g_mem = g_store.data(); g_lmem = g_lstore.data();
 	reset_memory();
